@@ -1,0 +1,60 @@
+//go:build verif
+
+package fclient
+
+import (
+	"context"
+	"net"
+	"syscall"
+)
+
+// This file is compiled only with the "verif" build tag. It exposes, without
+// changing them, the network-policy decision function and the dialer control
+// function to the external verification harness, and lets the harness script
+// the resolver of a DNSCache and look at its size (under the cache mutex).
+
+// VerifIsAllowed is isAllowed.
+func VerifIsAllowed(ip net.IP, allowCIDRs, denyCIDRs []string) bool {
+	return isAllowed(ip, allowCIDRs, denyCIDRs)
+}
+
+// VerifAllowDenyControl is allowDenyNetworksControl.
+func VerifAllowDenyControl(allow, deny []string) func(ctx context.Context, network, address string, conn syscall.RawConn) error {
+	return allowDenyNetworksControl(allow, deny)
+}
+
+// VerifResolver is the resolver interface a DNSCache uses.
+type VerifResolver interface {
+	LookupIPAddr(context.Context, string) ([]net.IPAddr, error)
+}
+
+// VerifSetResolver replaces the resolver of the cache (as dnscache_test.go does).
+func (c *DNSCache) VerifSetResolver(r VerifResolver) { c.resolver = r }
+
+// VerifLookup is lookup, returning what a caller of the cache can observe.
+func (c *DNSCache) VerifLookup(ctx context.Context, name string) (addrs []net.IPAddr, expiresUnixNano int64, cached bool, ok bool) {
+	entry, cached := c.lookup(ctx, name)
+	if entry == nil {
+		return nil, 0, false, false
+	}
+	return entry.addrs, entry.expires.UnixNano(), cached, true
+}
+
+// VerifLen returns the number of cached entries, read under the cache mutex.
+func (c *DNSCache) VerifLen() int {
+	c.mutex.Lock()
+	defer c.mutex.Unlock()
+	return len(c.entries)
+}
+
+// VerifTransportCount returns the number of cached transports of the client's
+// destination tripper (-1 if the client uses another transport).
+func (fc *Client) VerifTransportCount() int {
+	t, ok := fc.client.Transport.(*destinationTripper)
+	if !ok {
+		return -1
+	}
+	t.transportsMutex.Lock()
+	defer t.transportsMutex.Unlock()
+	return len(t.transports)
+}
